@@ -1,45 +1,60 @@
 #!/venv/bin/python
-"""Apply a textual mutation to /repo's working tree, run the repository's baseline
-tests and one or more checks, then revert.  For development of the checks only.
+"""Apply a textual mutation (or a patch file) to a scratch copy of /repo, run the repository's
+baseline tests and one or more checks against that copy (CSPUZ_REPO), then delete the copy.
+/repo itself is never touched, so several of these can run side by side.
 
-usage: tools/mutant.py <file> <old> <new> -- <check id> [<check id> ...]
-       (old/new are literal strings; old must occur exactly once unless --all)
+usage: tools/mutant.py [--all] [--notests] <file> <old> <new> -- <check id> ...
+       tools/mutant.py [--notests] --patch <patch.diff> -- <check id> ...
 """
-import subprocess, sys, os
+import os, shutil, subprocess, sys, tempfile
 
 def main():
     args = sys.argv[1:]
-    allocc = False
-    if args and args[0] == "--all":
-        allocc = True; args = args[1:]
-    notests = False
-    if args and args[0] == "--notests":
-        notests = True; args = args[1:]
+    allocc = notests = False
+    patch = None
+    while args and args[0].startswith("--") and args[0] != "--":
+        if args[0] == "--all": allocc = True; args = args[1:]
+        elif args[0] == "--notests": notests = True; args = args[1:]
+        elif args[0] == "--patch": patch = args[1]; args = args[2:]
+        else: break
     sep = args.index("--")
-    path, old, new = args[:sep]
     checks = args[sep + 1:]
-    st = subprocess.run(["git", "-C", "/repo", "status", "--porcelain"], capture_output=True, text=True).stdout
-    if st.strip():
-        print("refusing: /repo working tree not clean"); return 2
-    full = os.path.join("/repo", path)
-    src = open(full).read()
-    n = src.count(old)
-    if n == 0 or (n > 1 and not allocc):
-        print("pattern occurs %d times" % n); return 2
-    open(full, "w").write(src.replace(old, new))
+    tmp = tempfile.mkdtemp(prefix="mut_", dir="/tmp")
+    repo = os.path.join(tmp, "repo")
     try:
+        shutil.copytree("/repo", repo, ignore=shutil.ignore_patterns(".git", "__pycache__", "*.egg-info"))
+        if patch:
+            r = subprocess.run(["patch", "-p1", "-s", "-i", os.path.abspath(patch)], cwd=repo, capture_output=True, text=True)
+            if r.returncode:
+                print("patch failed: " + r.stdout + r.stderr); return 2
+        else:
+            path, old, new = args[:sep]
+            full = os.path.join(repo, path)
+            src = open(full).read()
+            n = src.count(old)
+            if n == 0 or (n > 1 and not allocc):
+                print("pattern occurs %d times" % n); return 2
+            open(full, "w").write(src.replace(old, new))
+        env = dict(os.environ, CSPUZ_REPO=repo)
         if not notests:
-            r = subprocess.run(["/venv/bin/python", "/verif/tools/baseline.py", "/repo"], capture_output=True, text=True)
+            r = subprocess.run(["/venv/bin/python", "/verif/tools/baseline.py", repo], capture_output=True, text=True)
             print(r.stdout.strip().splitlines()[0] if r.stdout.strip() else r.stderr[-300:])
+        detected = []
         for c in checks:
-            r = subprocess.run(["/verif/check", c], capture_output=True, text=True, cwd="/verif")
+            tier = "quick"
+            if ":" in c:
+                c, tier = c.split(":")
+            env["VERIF_EVIDENCE_DIR"] = os.path.join(tmp, "evidence")
+            env["VERIF_REPLAY_DIR"] = os.path.join(tmp, "replays")
+            r = subprocess.run(["/verif/check", c, "--tier", tier], capture_output=True, text=True, cwd="/verif", env=env)
             lines = [l for l in r.stdout.splitlines() if l.startswith("VIOLATION") or l.startswith("  key=")]
             print("%s exit=%d  %s" % (c, r.returncode, r.stdout.strip().splitlines()[-1] if r.stdout.strip() else r.stderr[-400:]))
             for l in lines[:4]:
                 print("   " + l[:220])
+            if r.returncode == 1: detected.append(c)
+        print("DETECTED-BY: " + (" ".join(detected) or "none"))
     finally:
-        subprocess.run(["git", "-C", "/repo", "checkout", "--", "."])
-        subprocess.run(["rm", "-rf", "/verif/replays"])
+        shutil.rmtree(tmp, ignore_errors=True)
     return 0
 
 sys.exit(main())
